@@ -75,7 +75,7 @@ func runC14(c *Ctx) error {
 	thorough := c.Tier == "thorough"
 	nprog := envInt("VERIF_C14_PROGRAMS", 300)
 	nfull := envInt("VERIF_C14_FULL", 4)
-	ncli := envInt("VERIF_C14_CLI", 10)
+	ncli := envInt("VERIF_C14_CLI", 12)
 	if thorough {
 		nprog = envInt("VERIF_C14_PROGRAMS", 40000)
 		nfull = envInt("VERIF_C14_FULL", 1000)
